@@ -835,6 +835,81 @@ def sess_structured_failures(w):
     w.trace.append({'step': len(w.trace), 'structured_frames': [n for n, _ in frames][:400]})
 
 
+# ---------------------------------------------------------------------------------------------- server start-up
+@atom(layer='server')
+def server_startup(w):
+    """KmipServer built the way bin/run_server.py builds it, from configuration files with and without a
+    logging_level line (every accepted spelling) and with the constructor argument; the EFFECTIVE levels of the
+    loggers the sessions and the engine use are read back, one canary request goes through
+    _setup_connection_handler on a fake connection with the handlers the server attached, and what was actually
+    WRITTEN to the server's log file is what gets scanned."""
+    import os
+    import tempfile
+    import threading
+    from kmip.services.server import server as server_mod
+    d = tempfile.mkdtemp(dir=str(w.ctx.work))
+    w.scratch.append(d)
+    for fn in ('server.crt', 'server.key', 'ca.crt'):
+        open(os.path.join(d, fn), 'w').close()
+    os.mkdir(os.path.join(d, 'policies'))
+    base = ('[server]\nhostname=127.0.0.1\nport=5696\ncertificate_path={d}/server.crt\nkey_path={d}/server.key\n'
+            'ca_path={d}/ca.crt\nauth_suite=TLS1.2\npolicy_path={d}/policies\ndatabase_path={d}/unused.db\n').format(d=d)
+    variants = [('no logging_level line', base, None), ('no level, other optional settings', base + 'enable_tls_client_auth=False\ntls_cipher_suites=\n', None)]
+    for spelling in ('INFO', 'info', 'Info', 'WARNING', 'warning', 'ERROR', 'CRITICAL', 'DEBUG', 'debug'):
+        variants.append(('logging_level=%s' % spelling, base + 'logging_level=%s\n' % spelling, None))
+    for arg in ('INFO', 'WARNING', 'DEBUG'):
+        variants.append(('constructor logging_level=%s' % arg, base, arg))
+    variants.append(('file says DEBUG, constructor says INFO', base + 'logging_level=DEBUG\n', 'INFO'))
+    pw = w.can.new('password', 20, text=True).decode()
+    auth = HH.password_auth('alice', pw)
+    srv_logger = logging.getLogger('kmip.server')
+    for k, (lab, conf, arg) in enumerate(variants):
+        key = w.can.new('key-material:server-startup', 32)
+        cpath = os.path.join(d, 'server-%02d.conf' % k)
+        lpath = os.path.join(d, 'log-%02d' % k, 'server.log')
+        with open(cpath, 'w') as f:
+            f.write(conf)
+        before = list(srv_logger.handlers)
+        saved_level = srv_logger.level
+        ent = {'step': len(w.trace), 'server': lab}
+        try:
+            srv = server_mod.KmipServer(config_path=cpath, log_path=lpath, logging_level=arg)
+            srv._engine = w.eng.engine
+            w.eng.engine._logger.setLevel(logging.NOTSET)           # as in a deployment: the engine logger inherits
+            frames = (HH.encode_request(w, [_register_item(w, key)], auth=auth) + HH.encode_request(w, [kdrv.get('404')], auth=auth))
+            conn = HH.FakeConn(frames, HH.make_cert(['alice'], 'client'))
+            name = '{0:08}'.format(srv._session_id)
+            srv._setup_connection_handler(conn, ('192.0.2.7', 5696))
+            for t in threading.enumerate():
+                if t.name == name:
+                    t.join(30)
+            eff = {n: logging.getLogger(n).getEffectiveLevel() for n in
+                   ('kmip.server', 'kmip.server.session.' + name, 'kmip.server.engine', 'kmip.server.engine.cryptography', 'kmip.server.config')}
+            mine = [h for h in srv_logger.handlers if h not in before]
+            ent['effective'] = eff
+            ent['handler_levels'] = [h.level for h in mine]
+            requested = (arg or ([l.split('=')[1] for l in conf.splitlines() if l.startswith('logging_level=')] or [None])[0])
+            w.level_checks.append({'variant': lab, 'requested': requested.upper() if requested else None, 'effective': eff,
+                                   'handler_levels': ent['handler_levels'], 'config': conf.replace(d, '<tmp>'), 'constructor_logging_level': arg})
+            for h in mine:
+                h.flush()
+            text = open(lpath, errors='replace').read() if os.path.exists(lpath) else ''
+            ent['log_bytes'] = len(text)
+            w.written.append((len(w.trace), lab, requested.upper() if requested else None, text))
+            for st_, reason, msg in [m for fr in HH.split_frames(conn.sent) for m in (HH.response_messages(fr) or [])]:
+                if msg is not None:
+                    w.messages.append((len(w.trace), 'message', msg))
+        except Exception as e:
+            ent['exception'] = repr(e)
+            w.messages.append((len(w.trace), 'client-error', 'server start-up: %r' % e))
+        finally:
+            for h in [h for h in srv_logger.handlers if h not in before]:
+                srv_logger.removeHandler(h)
+                h.close()
+            srv_logger.setLevel(saved_level)
+        w.trace.append(ent)
+
+
 # ---------------------------------------------------------------------------------------------- pie client
 @atom(layer='client')
 def client_config_files(w):
@@ -995,5 +1070,6 @@ CURATED = [
     ('client-loopback', 'client', ['client_ops']),
     ('client-cut-responses', 'client', ['client_cut_responses']),
     ('client-config-files', 'client', ['client_config_files']),
+    ('server-startup', 'server', ['server_startup']),
     ('engine-attributes-requests', 'engine', ['setup_keys', 'lifecycle_all_types', 'attribute_paths', 'request_level', 'restart_and_reuse', 'locate_query', 'monitor_and_config']),
 ]
